@@ -130,6 +130,18 @@ SAMPLERS = [("df", lambda r: r.choice([0.05, 0.1, 0.25, 0.5, 1.0])), ("bw", lamb
             ("fc", lambda r: r.choice([0.0, 0.1, 0.25, 0.5, 1.0, 1.5, 2.0, 0.3, 0.7, 5.0])), ("x", lambda r: r.choice([0.0, 1.0, 2.0, 0.5]))]
 
 
+def dyadic(df, bw, fcs, spec):
+    """inputs on a dyadic grid (multiples of 1/8, spectrum multiples of 1/4): exactly representable floats"""
+    cons = []
+    for k, v in enumerate([df, bw] + list(fcs)):
+        i = z3.Int(f"dy!{k}")
+        cons += [v.e == z3.ToReal(i) / 8, i >= 0, i <= 128]
+    for k, v in enumerate(spec.flat):
+        i = z3.Int(f"dx!{k}")
+        cons += [v.e == z3.ToReal(i) / 4, i >= 0, i <= 64]
+    return cons
+
+
 def run_kernel(rep, tier, op, nb, rows, nfc=1):
     fn = getattr(L()["smoothing"], op)
 
@@ -147,7 +159,7 @@ def run_kernel(rep, tier, op, nb, rows, nfc=1):
                 want, ws, sw = smooth_spec(op, frq, spec[r], fcs[i].e, bw.e)
                 bad.append(Sym.lift(out[r, i]) != want)
         rep.prove(ctx, f"{op}: output = weight-normalised average under the published kernel (0 for an empty window)", bad,
-                  witness=W("identity"), key="kernel-identity", real=True, samplers=SAMPLERS)
+                  witness=W("identity"), key="kernel-identity", real=True, samplers=SAMPLERS, shape=dyadic(df, bw, fcs, spec))
         if len(rep.validations) < 10:
             r_, m = ctx.model()
             if r_ == z3.sat:
